@@ -28,8 +28,9 @@ Entry(f, r, kind) == [text |-> RefText(r), f |-> f, r |-> r, kind |-> kind]
 (* encoding `headers` and components.links; LoaderVisitsAll = FALSE gives that pinned resolver.      *)
 CONSTANT LoaderVisitsAll
 UnvisitedSite(ownerKind, site) ==
-   ~LoaderVisitsAll /\ (\/ (ownerKind \in {"parameters", "headers"} /\ site = "examples")
-                        \/ site = "content.encoding.headers")
+   \/ site = "discriminator.mapping"          \* a mapping value is a string, not a Reference Object: the loader never resolves (or reads) it
+   \/ ~LoaderVisitsAll /\ (\/ (ownerKind \in {"parameters", "headers"} /\ site = "examples")
+                           \/ site = "content.encoding.headers")
 
 (* follow a chain of refs: slot index, 0 (nil) or -1 (error).  hops = entries pushed by this chain. *)
 RECURSIVE Chain(_, _, _, _, _)
